@@ -205,7 +205,9 @@ class Model:
         if hasattr(self,'project_closures'):
             lp_vars_string += 'Project closure variables:\n'
             for var in self.project_closures:
-                if (var.varValue > 0.9):
+                # A closure variable of a project with lower and upper quota
+                # 0 appears in no constraint and is never assigned a value.
+                if (var.varValue is not None and var.varValue > 0.9):
                     lp_vars_string += '1 '
                 else:
                     lp_vars_string += '0 '
